@@ -40,10 +40,11 @@ pub use self::month::month_parser;
 pub use self::operator::operator_regex_parser;
 
 use super::Tokinizer;
+use super::map_case;
 
 
 pub type RegexParser = fn(config: &SmartCalcConfig, tokinizer: &mut Tokinizer, group_item: &[Regex]);
-pub type Parser      = fn(config: &SmartCalcConfig, tokinizer: &mut Tokinizer, data: &str);
+pub type Parser      = fn(config: &SmartCalcConfig, tokinizer: &mut Tokinizer, data: &str, offsets: &[usize]);
 
 
 lazy_static! {
@@ -83,9 +84,9 @@ pub fn regex_tokinizer(tokinizer: &mut Tokinizer) {
 }
 
 pub fn language_tokinizer(tokinizer: &mut Tokinizer) {
-    let lowercase_data = tokinizer.data.to_lowercase();
+    let (lowercase_data, offsets) = map_case(&tokinizer.data, false);
     for func in LANGUAGE_BASED_TOKEN_PARSER.iter() {
-        func(tokinizer.config, tokinizer, &lowercase_data);
+        func(tokinizer.config, tokinizer, &lowercase_data, &offsets);
     }
 
     tokinizer.cleanup_token_infos();
